@@ -1,4 +1,4 @@
-import Invoke.Lemmas.ConfigEval
+import Invoke.Lemmas.ConfigReach
 /-! # C11 — clones are faithful and independent; supplied data is never mutated
 
 Property theorems only.  The model (`Model/Config.lean`) is pure: a configuration IS its ten data
@@ -29,6 +29,13 @@ theorem clone_slots_eq (c : Cfg) (hc : TypeOK c) : c.clone = .ok c :=
 theorem clone_view_eq (c : Cfg) (hc : TypeOK c) :
     ∃ k, c.clone = .ok k ∧ k.view = c.view ∧ ∀ p, node p k.viewT = node p c.viewT :=
   ⟨c, clone_slots_eq c hc, rfl, fun _ => rfl⟩
+
+/-- In particular for every configuration REACHABLE by any history of reloads, navigated writes and
+    deletions (`Reach`, C06): the clone reads identically — runtime modifications and deletions
+    included — and, by C06's `reachable_reads_like_dict`, both read like the same nested dict. -/
+theorem clone_of_reachable (c : Cfg) (es : List Edit) (h : Reach c es) :
+    ∃ k, c.clone = .ok k ∧ k.view = c.view ∧ (∀ p, node p k.viewT = node p c.viewT) ∧ Reach k es :=
+  ⟨c, clone_slots_eq c (reach_inv h).1, rfl, fun _ => rfl, h⟩
 
 /-- ...and it keeps reading identically under the same later history (same reloads, same edits). -/
 theorem clone_same_future (c : Cfg) (hc : TypeOK c) (ops : List HOp) :
